@@ -123,6 +123,21 @@ def queue_discipline(analysis: Analysis, res: RuleResult) -> None:
     res.add("C16-R4", "transport:SyncTransport.send / senders are serialised under the transport lock", ok, common.where(analysis, info, info.node), "with self._lock: super().send(message)")
 
 
+def write_worker(analysis: Analysis, qual: str) -> dict:
+    """A repo-defined transport `write`: what can it raise into Transport.send (which handles OSError only)?"""
+    ctx = analysis.context(analysis.versions[-1], "tcp", "sync")
+    it = analysis.new_interp(ctx)
+    st, gw = analysis.gateway_state(it)
+    cls = qual.rsplit(".", 1)[0]
+    tr = Sym(("root", "TT"), ("cls", cls))
+    rows = []
+    for out in analysis.run_root(it, qual, [Sym(("root", "data"), "bytes")], tr, st):
+        kind, s, v = out
+        if kind == "raise":
+            rows.append({"exc": v.cls.__name__, "os": issubclass(v.cls, OSError), "what": v.what, "witness": describe_path(out, 12)})
+    return {"qual": qual, "rows": rows}
+
+
 def send_discipline(analysis: Analysis, res: RuleResult):
     """R1-R3: writers of the shared connection fields, snapshot discipline and drop-or-write-once on every path
     of send / disconnect.  (Also run by C01 as a lemma: a re-read racy field is an AttributeError in the pump.)"""
@@ -169,6 +184,40 @@ def send_discipline(analysis: Analysis, res: RuleResult):
         if q.endswith(".send"):
             res.add("C16-R3", f"{q} / writes the command when a connection exists", saw_write, "mysensors/transport.py", "a path writes", context=summ["flavour"])
             res.add("C16-R3", f"{q} / a failing write is handled", saw_handler, "mysensors/transport.py", "OSError handler present", context=summ["flavour"])
+    # transports implemented in the repo: their write() may only fail with OSError, the one class send() handles
+    writes = sorted(q for q, f in analysis.p.funcs.items() if q.endswith(".write") and f.cls is not None and any("ReaderThread" in b or "Transport" in b for b in analysis.p.mro(f.cls.qual)))
+    for summ in common.pmap(analysis, write_worker, writes) if writes else []:
+        bad = [r for r in summ["rows"] if not r["os"]]
+        res.add("C16-R3", f"{summ['qual']} / fails only with OSError (the class Transport.send handles)", not bad, "mysensors/gateway_tcp.py", "nothing but OSError can be raised" if not bad else f"{bad[0]['exc']} can be raised ({bad[0]['what']}): it is not an OSError, escapes Transport.send and ends the pump", bad[0]["witness"] if bad else None)
+    # re-entrancy: SyncTransport.send calls the reconnect callback while it holds the (non-reentrant) send lock,
+    # so whatever the transport registers as that callback must not take the same lock
+    for cq, cls in sorted(analysis.p.classes.items()):
+        init = cls.methods.get("__init__")
+        send = cls.methods.get("send")
+        if init is None or send is None:
+            continue
+        locks = {unparse(i.context_expr) for w in ast.walk(send.node) if isinstance(w, ast.With) for i in w.items if "lock" in unparse(i.context_expr).lower()}
+        if not locks:
+            continue
+        cbs = []
+        for c in ast.walk(init.node):
+            if isinstance(c, ast.Call) and len(c.args) >= 2 and isinstance(c.args[1], ast.Attribute) and isinstance(c.args[1].value, ast.Name) and c.args[1].value.id == "self" and "Protocol" in unparse(c.func):
+                cbs.append(c.args[1].attr)
+        for name in cbs:
+            seen, todo, offender = set(), [name], None
+            while todo and offender is None:
+                m = analysis.p.find_method(cq, todo.pop())
+                if not hasattr(m, "node") or m.qual in seen:
+                    continue
+                seen.add(m.qual)
+                for n in ast.walk(m.node):
+                    if isinstance(n, ast.With) and any(unparse(i.context_expr) in locks for i in n.items):
+                        offender = (m.qual, n)
+                    elif isinstance(n, ast.Call) and isinstance(n.func, ast.Attribute) and n.func.attr == "acquire" and unparse(n.func.value) in locks:
+                        offender = (m.qual, n)
+                    elif isinstance(n, ast.Call) and isinstance(n.func, ast.Attribute) and isinstance(n.func.value, ast.Name) and n.func.value.id == "self":
+                        todo.append(n.func.attr)
+            res.add("C16-R3", f"{cq}.{name} / the reconnect callback does not take the send lock (send calls it while holding {sorted(locks)})", offender is None, common.where(analysis, init, init.node), "no acquisition on the callback's synchronous path" if offender is None else f"{offender[0]} acquires {sorted(locks)}: a failed write calls the callback from inside send, which already holds the non-reentrant lock - the sender deadlocks on itself")
     return ws
 
 
